@@ -188,6 +188,17 @@ def run(ctx):
                 old_ = lit.name
                 lit.name = f'R{k}_{step}'
                 hist.append(f'rename {old_} -> {lit.name}')
+                if rng.random() < .5:
+                    # the name that became free is taken again: by another literal, or by a new one (appended / bulk-added)
+                    others = [x for x in en.eLiterals if x is not lit]
+                    if others and rng.random() < .6:
+                        o = rng.choice(others)
+                        hist.append(f'rename {o.name} -> {old_}')
+                        o.name = old_
+                    else:
+                        n = E.EEnumLiteral(old_, value=rng.randint(0, 9))
+                        (en.eLiterals.append if rng.random() < .5 else (lambda x: en.eLiterals.extend([x])))(n)
+                        hist.append(f'add {old_} again')
             elif c < .7:
                 lit = E.EEnumLiteral(f'tmp{step}')
                 en.eLiterals.append(lit)
